@@ -27,6 +27,42 @@ def switch_after(f, bb, local):
     return true_t, false_t
 
 
+def bool_test(f, call_term):
+    """the branch on the bool result of a call: (true_target, false_target, switch_block).  The result may be tested at once,
+    after being kept in a named local, or negated first (`!x`)."""
+    if call_term.get("target") is None or call_term["dest"]["p"]:
+        return None
+    dl = call_term["dest"]["l"]
+    d = switch_after(f, call_term["target"], dl)
+    if d is not None:
+        return d[0], d[1], call_term["target"]
+    root = f.copy_root(dl)
+    for b in sorted(f.reachable()):
+        t = f.blocks[b]["term"]
+        if t["k"] != "switch" or op_local(t["discr"]) is None:
+            continue
+        l = op_local(t["discr"])
+        neg = False
+        o = f.origin_local(l)
+        if o[0] == "unop" and o[1]["op"] == "Not" and op_local(o[1]["x"]) is not None:
+            neg = True
+            l = op_local(o[1]["x"])
+        if f.copy_root(l) != root and l != dl:
+            continue
+        # the tested value must be this call's result (single definition)
+        ds = f.full_defs(f.copy_root(l))
+        if not (len(ds) == 1 and ds[0][0] == "call" and ds[0][2] is call_term):
+            continue
+        ft = [tg for v, tg in t["targets"] if v == "0"]
+        if not ft:
+            continue
+        tr, fa = t["otherwise"], ft[0]
+        if neg:
+            tr, fa = fa, tr
+        return tr, fa, b
+    return None
+
+
 def str_eq_arms(f):
     """all `x == "literal"` tests in f: list of dict(lit, true, false, bb, scrut)"""
     out = []
